@@ -1,16 +1,16 @@
 """Which lemma files, static obligations and bounded stand-ins decide which property."""
 
+ENGINE = ["contracts/engine_laws.py"]
+
 PROPS = {
-    "C02": {
-        "level": "proof",
-        "lemma_files": ["contracts/engine_laws.py"],
-        "conformance": [],
-    },
-    "C13": {
-        "level": "proof",
-        "lemma_files": ["contracts/path_laws.py"],
-        "conformance": ["str"],
-        "bounded": [],
-        "static": [],
-    },
+    "C02": {"level": "proof", "lemma_files": ENGINE, "conformance": []},
+    "C03": {"level": "proof", "lemma_files": ENGINE, "conformance": []},
+    "C04": {"level": "proof", "lemma_files": ENGINE, "conformance": []},
+    "C08": {"level": "proof", "lemma_files": ENGINE + ["contracts/state_index.py"], "conformance": []},
+    "C10": {"level": "proof", "lemma_files": ENGINE, "conformance": []},
+    "C11": {"level": "proof", "lemma_files": ENGINE + ["contracts/state_index.py"], "conformance": []},
+    "C12": {"level": "proof", "lemma_files": ENGINE + ["contracts/path_laws.py"], "conformance": ["str"]},
+    "C13": {"level": "proof", "lemma_files": ["contracts/path_laws.py"], "conformance": ["str"]},
+    "C17": {"level": "proof", "lemma_files": ENGINE, "conformance": []},
+    "C18": {"level": "proof", "lemma_files": ENGINE, "conformance": []},
 }
